@@ -14,7 +14,7 @@ import collections
 import itertools as it
 import locale
 import re
-from decimal import Decimal, ROUND_HALF_UP
+from decimal import Context, Decimal, ROUND_HALF_UP
 from enum import Enum
 from typing import Iterable, List
 
@@ -298,8 +298,15 @@ class TextFormat:
             # return the format directly
             return ''.join(t.token for t in tokenized_format.tokens)
 
+    # the default context (28 digits) cannot hold 1e27 with two decimals
+    QUANTIZE_CONTEXT = Context(prec=800)
+
     def _number_converter(self, number_value, tokenized: Tokenized):
         # round (half away from zero) the decimal rendering of the number
+        if isinstance(number_value, int):
+            # whole floats arrive as int: 1e23 is to be shown as 1 and 23 zeros
+            # and not as the 99999999999999991611392 it is stored as
+            number_value = float(number_value)
         number_value = Decimal(repr(number_value)) * 100 ** tokenized.percents
         number_format = ''.join(
             t.token for t in tokenized.tokens if t.type == self.TokenType.NUMBER)
@@ -308,13 +315,17 @@ class TextFormat:
         if tokenized.decimal:
             left_num_format, right_num_format = number_format.split('.', 1)
             decimals = len(right_num_format)
-            number_value = float(number_value.quantize(
-                Decimal(1).scaleb(-decimals), rounding=ROUND_HALF_UP))
-            left_side, right_side = f'{number_value:#{thousands}.{decimals}f}'.split('.')
+            # stay in Decimal: a float shows its binary digits past the 17th
+            number_value = number_value.quantize(
+                Decimal(1).scaleb(-decimals), rounding=ROUND_HALF_UP,
+                context=self.QUANTIZE_CONTEXT)
+            left_side, _, right_side = (
+                f'{number_value:{thousands}.{decimals}f}'.partition('.'))
             right_side = right_side.rstrip('0')
         else:
             number_value = int(number_value.quantize(
-                Decimal(1), rounding=ROUND_HALF_UP))
+                Decimal(1), rounding=ROUND_HALF_UP,
+                context=self.QUANTIZE_CONTEXT))
             left_side = f'{number_value:{thousands}}'
             right_side = None
         left_side = left_side.lstrip('0')
